@@ -57,15 +57,16 @@ Definition flag_applies (flag : flagspec) (fmode : option string) (o : options) 
   | None => match flag with FBool b => b | _ => false end
   | Some m =>
       if String.eqb m "" then match flag with FBool b => b | _ => false end
-      else match flag with
-           | FModes s => str_contains s m
-           | FBool true => true
-           | FBool false =>
-               match fmode with
-               | Some fm => if String.eqb fm "" then false else negb (str_contains fm m)
-               | None => false
-               end
-           end
+      else
+        let by_mode := match fmode with
+                       | Some fm => if String.eqb fm "" then false else negb (str_contains fm m)
+                       | None => false
+                       end in
+        match flag with
+        | FModes s => if str_contains s m then true else by_mode
+        | FBool true => true
+        | FBool false => by_mode
+        end
   end.
 Definition is_no_input (f : field) (o : options) : bool := flag_applies (f_no_input f) (f_mode f) o.
 Definition is_no_output (f : field) (o : options) : bool := flag_applies (f_no_output f) (f_mode f) o.
